@@ -428,68 +428,67 @@ func isDangerousProcPath(path string) bool {
 	}
 }
 
+// resolveTraceePath resolves p (relative to base if not absolute) the way the
+// kernel walks a path: one component at a time, where ".." is the parent of
+// the directory reached so far and a symlink splices its target in front of
+// the remaining components. The path must not be cleaned lexically first:
+// "lnk/../f" is not "f" when lnk points into another directory.
 func resolveTraceePath(pid int, base string, p string) string {
-	p = normalizeProcMagicPath(pid, p)
 	if !filepath.IsAbs(p) {
 		if base == "" {
 			base = getProcCwd(pid)
 		}
-		p = filepath.Join(base, p)
-	}
-	p = filepath.Clean(p)
-
-	for range maxSymlinkDepth {
-		next, changed := resolveTraceePathOnce(pid, p)
-		if !changed {
-			return next
-		}
-		p = next
-	}
-	return p
-}
-
-func resolveTraceePathOnce(pid int, p string) (string, bool) {
-	if p == "/" {
-		return p, false
+		p = base + "/" + p
 	}
 
+	traceePID := strconv.Itoa(pid)
+	traceeRoot := "/proc/" + traceePID + "/root"
 	cur := "/"
-	rest := strings.Split(strings.TrimPrefix(p, "/"), "/")
-	for i, part := range rest {
-		if part == "" || part == "." {
+	rest := strings.Split(p, "/")
+	for links := 0; len(rest) > 0; {
+		part := rest[0]
+		rest = rest[1:]
+		switch part {
+		case "", ".":
+			continue
+		case "..":
+			cur = filepath.Dir(cur)
 			continue
 		}
-		if part == ".." {
-			cur = filepath.Dir(cur)
-			if cur == "." {
-				cur = "/"
+		if cur == "/proc" {
+			// self and thread-self depend on who reads them: name the tracee
+			// (best effort for thread-self: the traced task)
+			switch part {
+			case "self":
+				cur = "/proc/" + traceePID
+				continue
+			case "thread-self":
+				cur = "/proc/" + traceePID + "/task/" + traceePID
+				continue
 			}
-			continue
 		}
 
 		candidate := filepath.Join(cur, part)
-		lstatPath := filepath.Join(fmt.Sprintf("/proc/%d/root", pid), candidate)
+		if links >= maxSymlinkDepth {
+			cur = candidate
+			continue
+		}
+		lstatPath := traceeRoot + candidate
 		fi, err := os.Lstat(lstatPath)
 		if err != nil || fi.Mode()&os.ModeSymlink == 0 {
 			cur = candidate
 			continue
 		}
-
 		target, err := os.Readlink(lstatPath)
 		if err != nil {
 			cur = candidate
 			continue
 		}
-		target = normalizeProcMagicPath(pid, target)
-		if !filepath.IsAbs(target) {
-			target = filepath.Join(filepath.Dir(candidate), target)
+		links++
+		if filepath.IsAbs(target) {
+			cur = "/"
 		}
-		target = filepath.Clean(target)
-
-		if i+1 < len(rest) {
-			target = filepath.Join(target, filepath.Join(rest[i+1:]...))
-		}
-		return filepath.Clean(target), true
+		rest = append(strings.Split(target, "/"), rest...)
 	}
-	return filepath.Clean(cur), false
+	return cur
 }
